@@ -252,6 +252,14 @@ func (c *Ctx) structName(named *types.Named, st *types.Struct) string {
 	return "S_anon_" + fmt.Sprintf("%x", hashString(types.TypeString(st, c.qual)))
 }
 
+// fieldName: SMT-safe name of a struct field; blank fields ("_") are made unique by their source position.
+func fieldName(f *types.Var) string {
+	if f.Name() == "_" {
+		return fmt.Sprintf("_blank%d", int(f.Pos()))
+	}
+	return sanitize(f.Name())
+}
+
 func hashString(s string) uint32 {
 	h := uint32(2166136261)
 	for i := 0; i < len(s); i++ {
@@ -270,7 +278,7 @@ func (c *Ctx) structSort(named *types.Named, st *types.Struct) Sort {
 	var fields []string
 	for i := 0; i < st.NumFields(); i++ {
 		f := st.Field(i)
-		fields = append(fields, fmt.Sprintf("(%s!%s %s)", name, sanitize(f.Name()), c.sortOf(f.Type())))
+		fields = append(fields, fmt.Sprintf("(%s!%s %s)", name, fieldName(f), c.sortOf(f.Type())))
 	}
 	if len(fields) == 0 {
 		c.decl(fmt.Sprintf("(declare-datatypes ((%s 0)) (((mk_%s))))", name, name))
@@ -316,7 +324,7 @@ func (c *Ctx) class(name string, s Sort) string {
 }
 
 func (c *Ctx) fieldClass(structName string, f *types.Var) string {
-	return c.class("F_"+structName+"_"+sanitize(f.Name()), fmt.Sprintf("(Array Int %s)", c.sortOf(f.Type())))
+	return c.class("F_"+structName+"_"+fieldName(f), fmt.Sprintf("(Array Int %s)", c.sortOf(f.Type())))
 }
 
 func sortKey(s Sort) string {
@@ -343,7 +351,7 @@ func (c *Ctx) mapValClass(m *types.Map) string {
 // subRef: interior reference for a struct-typed (or array-typed) field of a struct object.
 // Interior references are negative, injective per (struct, field), and share the "root" of their owner.
 func (c *Ctx) subRef(structName string, f *types.Var, base string) string {
-	fn := "sub_" + structName + "_" + sanitize(f.Name())
+	fn := "sub_" + structName + "_" + fieldName(f)
 	c.decl("(declare-fun root (Int) Int)")
 	c.decl("(declare-fun subtag (Int) Int)")
 	c.decl(fmt.Sprintf("(declare-fun %s (Int) Int)", fn))
